@@ -12,6 +12,7 @@ PROP = {
         "quick": [B("stable"), B("nightly", 0.25, False)],
         "thorough": [B("stable"), B("nightly", 0.5, False)],
     },
+    "volume": {"quick": 2},
     "technique": "property-based testing: the complete table of swizzle method names is generated combinatorially (a missing method or type is a compile error), every method is "
                  "called on generated lane bit patterns and compared with the lane selection its name spells, in the SSE2, scalar-math and nightly core-simd builds",
     "level_text": "Generated-input search over a complete method table: all 481 getter names and all 42 with_ setter names of the three swizzle traits are enumerated by the "
